@@ -109,7 +109,7 @@ func line(
 		}
 	}
 
-	if ring != nil && uint32(y) == ring[0][1] {
+	if len(ring) != 0 && uint32(y) == ring[0][1] {
 		ring = ring[:len(ring)-1]
 	}
 
